@@ -865,4 +865,27 @@ theorem shipped_rt_text (M : Str) (hM : M ∈ modules) (d : List (Str × Row)) (
   obtain ⟨h1, h2, h3⟩ := shipped_invariants M hM
   exact rt_text_exact world table M d rank h1 hexp h2 (symOK_of_check world table M h3) (viaOK_of_check world table M (shipped_via M hM))
 
+open Tranp.Generated.SymbolRows in
+/-- **The tests of the export-order walk are the ones modelled** (generated from the AST of db.py on every run): `_order_keys`
+    filters by module and appends a key not yet listed; `_order_keys_recursive` walks the attributes first, lists a type key of the
+    exported module not yet listed, expands the key's OWN table entry exactly when the key is in the table and NOT ALREADY BEING
+    EXPANDED (`key not in resolving` — membership in the set of keys under expansion, `orderNode`/`entryFirst`; not "nothing is being
+    expanded"), pushes / pops that key around the expansion and then appends it (`C14.order`, `C14.order_fuel` are theorems about
+    exactly this walk). Another guard, another write to `resolving` / `orders`, another loop or call is a failed theorem here. -/
+theorem order_guards_generated :
+    orderLoopTests = [['f', 'o', 'r', '_', 'm', 'o', 'd', 'u', 'l', 'e', '_', 'p', 'a', 't', 'h', ' ', 'i', 's', ' ', 'N', 'o', 'n', 'e', ' ', 'o', 'r', ' ', 'm', 'o', 'd', 'u', 'l', 'e', '_', 'p', 'a', 't', 'h', ' ', '=', '=', ' ', 'f', 'o', 'r', '_', 'm', 'o', 'd', 'u', 'l', 'e', '_', 'p', 'a', 't', 'h'],
+      ['k', 'e', 'y', ' ', 'n', 'o', 't', ' ', 'i', 'n', ' ', 'o', 'r', 'd', 'e', 'r', 's']] ∧
+    orderWalkTests = [['r', 'e', 's', 'o', 'l', 'v', 'i', 'n', 'g', ' ', 'i', 's', ' ', 'n', 'o', 't', ' ', 'N', 'o', 'n', 'e'],
+      ['n', 'o', 't', ' ', 'f', 'o', 'r', '_', 'm', 'o', 'd', 'u', 'l', 'e', '_', 'p', 'a', 't', 'h', ' ', 'o', 'r', ' ', '(', 'f', 'o', 'r', '_', 'm', 'o', 'd', 'u', 'l', 'e', '_', 'p', 'a', 't', 'h', ' ', '=', '=', ' ', 's', 'y', 'm', 'b', 'o', 'l', '.', 't', 'y', 'p', 'e', 's', '.', 'm', 'o', 'd', 'u', 'l', 'e', '_', 'p', 'a', 't', 'h', ' ', 'a', 'n', 'd', ' ', 'k', 'e', 'y', ' ', 'n', 'o', 't', ' ', 'i', 'n', ' ', 'o', 'r', 'd', 'e', 'r', 's', ')'],
+      ['k', 'e', 'y', ' ', 'i', 'n', ' ', 's', 'e', 'l', 'f', '.', '_', '_', 'i', 't', 'e', 'm', 's', ' ', 'a', 'n', 'd', ' ', 'k', 'e', 'y', ' ', 'n', 'o', 't', ' ', 'i', 'n', ' ', 'r', 'e', 's', 'o', 'l', 'v', 'i', 'n', 'g'],
+      ['n', 'o', 't', ' ', 'f', 'o', 'r', '_', 'm', 'o', 'd', 'u', 'l', 'e', '_', 'p', 'a', 't', 'h', ' ', 'o', 'r', ' ', 'k', 'e', 'y', ' ', 'n', 'o', 't', ' ', 'i', 'n', ' ', 'o', 'r', 'd', 'e', 'r', 's']] ∧
+    orderWalkWrites = [['r', 'e', 's', 'o', 'l', 'v', 'i', 'n', 'g', '.', 'a', 'p', 'p', 'e', 'n', 'd', '(', 'k', 'e', 'y', ')'],
+      ['r', 'e', 's', 'o', 'l', 'v', 'i', 'n', 'g', '.', 'p', 'o', 'p', '(', ')'],
+      ['o', 'r', 'd', 'e', 'r', 's', '.', 'a', 'p', 'p', 'e', 'n', 'd', '(', 'k', 'e', 'y', ')']] ∧
+    orderWalkCalls = [['s', 'e', 'l', 'f', '.', '_', 'o', 'r', 'd', 'e', 'r', '_', 'k', 'e', 'y', 's', '_', 'r', 'e', 'c', 'u', 'r', 's', 'i', 'v', 'e', '(', 'f', 'o', 'r', '_', 'm', 'o', 'd', 'u', 'l', 'e', '_', 'p', 'a', 't', 'h', ',', ' ', 'a', 't', 't', 'r', ',', ' ', 'o', 'r', 'd', 'e', 'r', 's', ',', ' ', 'r', 'e', 's', 'o', 'l', 'v', 'i', 'n', 'g', ')'],
+      ['s', 'e', 'l', 'f', '.', '_', 'o', 'r', 'd', 'e', 'r', '_', 'k', 'e', 'y', 's', '_', 'r', 'e', 'c', 'u', 'r', 's', 'i', 'v', 'e', '(', 'f', 'o', 'r', '_', 'm', 'o', 'd', 'u', 'l', 'e', '_', 'p', 'a', 't', 'h', ',', ' ', 'a', 't', 't', 'r', ',', ' ', 'o', 'r', 'd', 'e', 'r', 's', ',', ' ', 'r', 'e', 's', 'o', 'l', 'v', 'i', 'n', 'g', ')']] ∧
+    orderWalkLoops = [['s', 'y', 'm', 'b', 'o', 'l', '.', 'a', 't', 't', 'r', 's'],
+      ['s', 'e', 'l', 'f', '.', '_', '_', 'i', 't', 'e', 'm', 's', '[', 'k', 'e', 'y', ']', '.', 'a', 't', 't', 'r', 's']] := by
+  decide +kernel
+
 end Tranp.C14
